@@ -41,7 +41,7 @@ def deviations(chk):
                 if not ok:
                     bad += 1
         # design-level observations: configurations that are EXPECTED to violate an invariant of the model although
-        # the library satisfies every listed property (documented in DESIGN.md 14.9)
+        # the library satisfies every listed property (documented in DESIGN.md 14.8)
         for tla, cfg, inv, what in [("MC_Link.tla", "MC_Link_reassign.cfg", "EidAgreement",
                                      "a late duplicate of an earlier Set Endpoint ID undoes a later Force (no replay protection)"),
                                     ("MC_Bus2.tla", "MC_Bus2_nodst.cfg", "NoCrossAct",
